@@ -446,6 +446,25 @@ def rule_macros(toks, log):
     return out
 
 
+def rule_literal_to_string(toks, log):
+    """R4c: "literal".to_string() / "literal".into() in message position -> verif_fmt() (message text only)."""
+    out = []
+    i = 0
+    n = len(toks)
+    while i < n:
+        t = toks[i]
+        if t.kind == "str":
+            sig = [k for k in range(i + 1, min(n, i + 12)) if toks[k].kind != "ws"][:4]
+            if len(sig) == 4 and [toks[k].text for k in sig] == [".", "to_string", "(", ")"]:
+                out.extend(tokenize("verif_fmt()"))
+                log.append("R4c: %s.to_string() -> verif_fmt()" % t.text[:30])
+                i = sig[3] + 1
+                continue
+        out.append(t)
+        i += 1
+    return out
+
+
 def rule_string_chains(toks, string_idents, log):
     """R4b: a maximal binary-+ chain, one of whose leaves is a string literal, a
     .to_string() call or an identifier listed as diagnostic string, is replaced as a whole
@@ -921,6 +940,9 @@ def parse_unit(path):
                 m = re.match(r"global_replace\s+<<(.*?)>>\s+with\s+<<(.*?)>>", d)
                 unit["global_replace"].append((m.group(1), m.group(2)))
                 continue
+            if d == "literal_to_string":
+                unit["literal_to_string"] = True
+                continue
             if d.startswith("cfg_off "):
                 for x in d[8:].split(","):
                     CFG_OFF.add(x.strip())
@@ -1046,6 +1068,8 @@ def extract_unit(unit_path, repo, out_rs, out_meta):
             toks = rule_macros(toks, log)
             strings = set(unit["strings"]) | set(item.get("strings", []))
             toks = rule_string_chains(toks, strings, log)
+            if unit.get("literal_to_string"):
+                toks = rule_literal_to_string(toks, log)
             item["selector_text"] = " :: ".join(item["selector"])
             toks = apply_fn_contract(toks, dict(item, selector=item["selector_text"]), log)
             if item.get("external_body"):
